@@ -178,5 +178,19 @@ PROPS["C17"] = {
     "trusted_base": ["go-playground/validator", "gopkg.in/yaml.v2", "time.ParseDuration, humanize.ParseBytes, regexp.Compile, url.Parse in the custom validators"],
 }
 
+PROPS["C19"] = {
+    "suites": [{"name": "upsel", "quick": 400, "thorough": 6000, "thorough_seeds": 3},
+               {"name": "upsel", "args": ["-opt", "settle"], "quick": 0, "thorough": 6, "thorough_seeds": 1}],
+    "trip_re": "sent_to_unhealthy|backup_while_primary|no_server_while_healthy|no_5xx",
+    "rule": "upsel: 1-4 real local servers (65% up, 35% backup) behind pike's NewUpstreamServer + target picker + elton proxy, every policy "
+            "(first/random/roundRobin/leastconn/unset); three phases of 1-7 sequential requests, between phases one or two servers are "
+            "stopped/restarted (listener closed/reopened) and given the status the checker would set; thorough adds a mode that only flips "
+            "the listeners and waits 6.5 s for the periodic checker. Observed: which server answered, status code. non-trivial = every "
+            "request; distinct = distinct (policy, vector, counter).",
+    "assumptions": ["PARTIAL: the health vector is an input of the model; the checker's timing (5 s interval, 5 probes, 2 failures) is library runtime behaviour exercised only by the settle mode",
+                    "round-robin window not crossing the 2^32 counter wrap"],
+    "trusted_base": ["github.com/vicanso/upstream health checking", "elton proxy middleware, httputil.ReverseProxy"],
+}
+
 NOT_APPLICABLE = {}
 HOOK_COMMITS = ["ca43a57", "6332ff2"]
